@@ -1,6 +1,6 @@
 //! Engines for the iso-literal family (C07, C32) against the real crates:
 //!   iso.lex      <hex text>            -> the logos token stream (kind:start:end,...,eof:s:e)
-//!   iso.parse    <hex text> <0|1>      -> ok <tree with every span> <semantic tokens> | diag <kind> <span> | panic
+//!   iso.parse    <hex text> <0|1> [generator class]  -> ok <tree with every span> <semantic tokens> | diag <kind> <span> | panic
 //!   iso.resolve  <hex text>            -> noparse | tree <generic span tree (hook)> <run-compressed chains for EVERY offset>
 //! Select the generator with HX_ENGINE = isolex | isoparse | resolve.
 use common_lang_types::{Location, Span, TextSource, WithEmbeddedLocation, WithGenericLocation};
@@ -383,8 +383,8 @@ fn main() {
             "isolex" => vec![format!("iso.lex\t{}", hex(gen::gen_lex_text(r).as_bytes()))],
             "resolve" => vec![format!("iso.resolve\t{}", hex(gen::gen_resolve_text(r).as_bytes()))],
             _ => {
-                let (text, export) = gen::gen_parse_case(r);
-                vec![format!("iso.parse\t{}\t{}", hex(text.as_bytes()), if export { 1 } else { 0 })]
+                let (text, export, class) = gen::gen_parse_case(r);
+                vec![format!("iso.parse\t{}\t{}\t{}", hex(text.as_bytes()), if export { 1 } else { 0 }, class)]
             }
         },
         &mut |f| match f[0] {
